@@ -53,7 +53,9 @@ def cmp_scenarios(draw):
     cancel = draw(st.one_of(st.none(), st.none(), st.floats(0, 40).map(lambda x: round(x, 3)),
                             st.builds(lambda k, eps: {'after_event': k, 'eps': eps}, st.integers(0, 39), st.sampled_from([0.0, 1e-6, 0.01, 0.2]))))
     return {'mode': 'cmp', 'idle': idle, 'limit': limit, 'nobj': nobj, 'exit_timeout': draw(st.sampled_from([0.5, 2.0, 10.0, 10.0])),
-            'events': events, 'breaks': breaks, 'cancel': cancel, 'list_dur': draw(st.sampled_from([0.0, 0.0, 0.3])), 'deletes': deletes}
+            'events': events, 'breaks': breaks, 'cancel': cancel, 'list_dur': draw(st.sampled_from([0.0, 0.0, 0.3])), 'deletes': deletes,
+            # how the bytes of the watch stream are cut into network reads (a line in pieces, its newline in a read of its own)
+            'chunking': draw(st.sampled_from([None, None, 'newline-apart', 'halves', 'thirds']))}
 
 
 @st.composite
@@ -95,6 +97,9 @@ def run_cmp(sc, res):
     sim = Sim(resources=[ResDef('kopf.dev', 'v1', 'kopfexamples', 'KopfExample')], seed=1)
     try:
         world, cluster = sim.world, sim.cluster
+        cluster.chunking = sc.get('chunking')
+        if sc.get('chunking'):
+            res.label('stream-lines-cut-into-several-reads')
         names = [f'o{i}' for i in range(sc['nobj'])]
         for n in names:
             cluster.create(KEX, 'default', n, {'spec': {'n': 0}})
